@@ -24,3 +24,12 @@ package summaries
 //@ func PkgHasSummaries
 //@   property C05 C10
 //@   pure
+
+// C09: the predefined summary of a function is the table entry stored under the
+// function's package and full name -- and nothing is returned for a function whose
+// package or name has no entry.
+//@ func SummaryOfFunc
+//@   property C09
+//@   ensures nil_function: function == nil ==> !result1
+//@   ensures from_table: result1 ==> function != nil && has(stdPackages, lang.PackageNameFromFunction(function)) && has(stdPackages[lang.PackageNameFromFunction(function)], function.String()) && result0 == stdPackages[lang.PackageNameFromFunction(function)][function.String()]
+//@   ensures found_if_present: function != nil && has(stdPackages, lang.PackageNameFromFunction(function)) && has(stdPackages[lang.PackageNameFromFunction(function)], function.String()) ==> result1
